@@ -15,6 +15,8 @@ func main() {
 	switch os.Args[1] {
 	case "c22":
 		runC22()
+	case "fprintprobe":
+		runFprintProbe()
 	case "c17":
 		runC17()
 	case "c18":
